@@ -10,6 +10,7 @@ every acknowledged result, every failure is explained (or is the documented tran
 and the final catalog and contents; the same state must be there after shutdown + reopen. A
 panicking or stuck session is a violation (stuck is decided on virtual time; a wall-clock
 watchdog on the multi-thread legs is only inconclusive)."""
+from sqlcase import is_conflict_text
 import os
 import random
 import sys
@@ -52,6 +53,11 @@ def gen_scenario(rng, seed, idx, mt):
                 mine.extend((name, u) for u, _ in part)
                 stmts.append(f"insert into {name} values " + ", ".join(f"({u}, {v})" for u, v in part))
                 spec.append(("insert", name, part))
+            elif x < 0.68:
+                # a predicate delete: overlaps with the deletes and inserts of the other sessions
+                kv = rng.randint(0, 3)
+                stmts.append(f"delete from {name} where k = {kv}")
+                spec.append(("delete_k", name, kv))
             elif x < 0.8:
                 pool = [u for n, u in mine if n == name] + ([u for u in pre.get(name, {}) if u % k == s])
                 if not pool:
@@ -98,13 +104,24 @@ def model_step(state, spec):
         ns = dict(state)
         ns[name] = state[name] - gone
         return True, len(gone), ns
+    if kind == "delete_k":
+        gone = {r for r in state[name] if r[1] == arg}
+        ns = dict(state)
+        ns[name] = state[name] - gone
+        return True, len(gone), ns
     if kind == "select":
         return True, sorted(state[name]), state
     raise ValueError(kind)
 
 
-def explain(sessions, init, final, budget=300000):
-    """sessions: [[(spec, ok, result, transient)]]. Returns True / False / None (budget exhausted)."""
+def explain(sessions, init, final, budget=300000, stale_delete_snapshot=False):
+    """sessions: [[(spec, ok, result, transient)]]. Returns True / False / None (budget exhausted).
+
+    With `stale_delete_snapshot` the search runs against a deliberately WEAKER model that is only
+    used to name a known finding: an acknowledged predicate DELETE is split into a read step (the
+    rows matching the predicate are captured from the state at that point of the order) and a
+    later commit step (exactly the captured rows are removed and counted).  A history that only
+    this model explains is the 'DELETE scans a snapshot older than its commit' anomaly."""
     sys.setrecursionlimit(10000)
     seen = set()
     nodes = [0]
@@ -112,13 +129,13 @@ def explain(sessions, init, final, budget=300000):
     def key(state):
         return tuple(sorted((n, tuple(sorted(r))) for n, r in state.items()))
 
-    def dfs(pos, state):
+    def dfs(pos, snaps, state):
         nodes[0] += 1
         if nodes[0] > budget:
             raise TimeoutError()
         if all(p == len(s) for p, s in zip(pos, sessions)):
             return key(state) == key(final)
-        k = (pos, key(state))
+        k = (pos, snaps, key(state))
         if k in seen:
             return False
         seen.add(k)
@@ -126,11 +143,29 @@ def explain(sessions, init, final, budget=300000):
             if pos[i] == len(s):
                 continue
             spec, ok, result, transient = s[pos[i]]
+            if stale_delete_snapshot and ok and spec[0] == "delete_k":
+                _, name, kv = spec
+                if snaps[i] is None:
+                    if name in state:
+                        cap = frozenset(r for r in state[name] if r[1] == kv)
+                        nsn = snaps[:i] + (cap,) + snaps[i + 1:]
+                        if dfs(pos, nsn, state):
+                            return True
+                    continue
+                cap = snaps[i]
+                if name in state and cap <= state[name] and result == len(cap):
+                    ns = dict(state)
+                    ns[name] = state[name] - cap
+                    npos = pos[:i] + (pos[i] + 1,) + pos[i + 1:]
+                    nsn = snaps[:i] + (None,) + snaps[i + 1:]
+                    if dfs(npos, nsn, ns):
+                        return True
+                continue
             mok, mres, ns = model_step(state, spec)
             good = False
             if ok:
                 if mok:
-                    if spec[0] in ("insert", "delete"):
+                    if spec[0] in ("insert", "delete", "delete_k"):
                         good = result == mres
                     elif spec[0] == "select":
                         good = result == mres
@@ -143,12 +178,12 @@ def explain(sessions, init, final, budget=300000):
                     ns = state
             if good:
                 npos = pos[:i] + (pos[i] + 1,) + pos[i + 1:]
-                if dfs(npos, ns):
+                if dfs(npos, snaps, ns):
                     return True
         return False
 
     try:
-        return dfs(tuple(0 for _ in sessions), init)
+        return dfs(tuple(0 for _ in sessions), tuple(None for _ in sessions), init)
     except TimeoutError:
         return None
 
@@ -179,7 +214,7 @@ def judge(sc, pre, specs, out):
             if hh["ok"]:
                 info["acked"] += 1
                 rows = stmt_rows(hh)
-                if sp[0] in ("insert", "delete"):
+                if sp[0] in ("insert", "delete", "delete_k"):
                     result = rows[0][0] if rows else None
                 elif sp[0] == "select":
                     result = sorted(tuple(r) for r in rows)
@@ -188,7 +223,7 @@ def judge(sc, pre, specs, out):
                 sess.append((sp, True, result, False))
             else:
                 info["failed"] += 1
-                transient = "replaced by a concurrent compaction" in (hh.get("err") or "")
+                transient = is_conflict_text(hh.get("err"))
                 sess.append((sp, False, None, transient))
         sessions.append(sess)
     init = {n: frozenset(r.items()) for n, r in pre.items()}
@@ -214,7 +249,9 @@ def judge(sc, pre, specs, out):
     verdict = explain(sessions, init, final)
     info["verdict"] = verdict
     if verdict is False:
-        v.append(("no-serial-order", "no order of the statements consistent with session order reproduces the acknowledged results and the final state: "
+        weak = explain(sessions, init, final, stale_delete_snapshot=True)
+        sig = "no-serial-order" if weak is not True else "no-serial-order:stale-predicate-delete-snapshot"
+        v.append((sig, "no order of the statements consistent with session order reproduces the acknowledged results and the final state: "
                   + str([[(s[0][0], s[0][1], "ok" if s[1] else "err", s[2] if s[0][0] != "select" else len(s[2] or [])) for s in sess] for sess in sessions])[:600]
                   + f" final={ {n: len(r) for n, r in final.items()} }"))
     if out.get("reopen") is not None:
@@ -250,6 +287,16 @@ def run_case(args):
 
 
 def sentinel(w):
+    if "scenario" in w:
+        # a directed schedule (gates) stored with its model inputs
+        out, err = run_scenario(w["scenario"], timeout=120)
+        if out is None:
+            raise RuntimeError(err)
+        specs = [[tuple(tuple(x) if isinstance(x, list) and sp[0] != "insert" else x for x in sp) for sp in sess] for sess in w["specs"]]
+        specs = [[(sp[0], sp[1], [tuple(r) for r in sp[2]] if sp[0] == "insert" else sp[2]) for sp in sess] for sess in w["specs"]]
+        pre = {n: {int(u): k for u, k in r.items()} for n, r in w["pre"].items()}
+        v, _ = judge(w["scenario"], pre, specs, out)
+        return v
     res = run_case((w["seed"], w["idx"], w["mt"]))
     return res["violations"]
 
@@ -257,7 +304,7 @@ def sentinel(w):
 def run(tier, seed):
     rep = Report("C10", tier, seed, "exploration")
     n_ct, n_mt = (150, 150) if tier == "quick" else (10000, 10000)
-    rep.rule = ("2-4 sessions x 2-6 statements (CREATE/DROP TABLE on 2 colliding names, INSERT with unique ids, DELETE by id, SELECT) "
+    rep.rule = ("2-4 sessions x 2-6 statements (CREATE/DROP TABLE on 2 colliding names, INSERT with unique ids, DELETE by id and by predicate (overlapping between sessions), SELECT) "
                 "on (a) current-thread runtime + hook perturbation and (b) multi-thread runtime with 2..16 workers; offline search "
                 "for an explaining serial order; distinct non-trivial = distinct histories in which at least two sessions had "
                 "acknowledged statements on the same table name")
@@ -285,7 +332,7 @@ def run(tier, seed):
             rep.distinct.add(h(sess))
         rep.sample(res["sample"], limit=3)
         for sig, what in res["violations"]:
-            rep.add_violation(Violation(("mt:" if res["mt"] else "") + sig, what, dict(seed=res["seed"], idx=res["idx"], mt=res["mt"])))
+            rep.add_violation(Violation(sig, ("[multi-thread runtime] " if res["mt"] else "") + what, dict(seed=res["seed"], idx=res["idx"], mt=res["mt"])))
     run_sentinels(rep, sentinel)
     rep.coverage.update(statements=tot["stmts"], acknowledged=tot["acked"], failed=tot["failed"],
                         histories_explained_by_a_serial_order=tot["explained"], current_thread_runs=tot["ct_runs"],
